@@ -247,10 +247,14 @@ pub fn run(out: &mut Out, rng: &mut Rng, thorough: bool) {
 	}
 	for &a in BOUNDARY_SCALARS {
 		for &b in BOUNDARY_SCALARS {
-			if thorough || rng.chance(1, 4) {
+			// U+FEFF next to every other boundary scalar always (it is special only at the very start)
+			if thorough || a == 0xFEFF || b == 0xFEFF || rng.chance(1, 4) {
 				texts.push(format!("{}{}", char::from_u32(a).unwrap(), char::from_u32(b).unwrap()));
 			}
 		}
+	}
+	for t in ["a\n\u{feff}b", "k: \"a\n  \u{feff}b\"\n", "\u{feff}\u{feff}a", "a\r\u{feff}b\n\u{feff}", "\n\u{feff}"] {
+		texts.push(t.to_string());
 	}
 	let n_random = if thorough { 3000 } else { 300 };
 	for _ in 0..n_random {
